@@ -45,6 +45,11 @@ def modified_cholesky(mat: np.ndarray, max_error: float = 1e-6) -> np.ndarray:
         chol_vecs[nchol + 1] = (mat[nu] - R) / (delta_max + 1e-10) ** 0.5
         nchol += 1
 
+    # the loop can also stop because the buffer is full: the last vector it
+    # computed is then still needed
+    if abs(delta_max) > max_error:
+        nchol += 1
+
     return chol_vecs[:nchol]
 
 
